@@ -72,6 +72,8 @@ pub(crate) struct G<'c> {
     pub cfg: &'c GenCfg,
     pub major: u16,
     pub this_class: JStr,
+    /// the last method reference drawn (now and then the next one is its twin of the other pool kind)
+    pub prev_method: Option<MemberRef>,
 }
 
 const ASCII_START: &[u8] = b"abcdefghijklmnopqrstuvwxyzABCDEFGHIJKLMNOPQRSTUVWXYZ_$";
@@ -315,6 +317,23 @@ impl<'c> G<'c> {
     // ---- constants -------------------------------------------------------
 
     pub fn member(&mut self, method: bool, is_interface: bool) -> MemberRef {
+        // now and then the same (owner, name, descriptor) as the method reference before, under whatever pool kind is
+        // asked for now: a class may name one method through a Methodref AND an InterfaceMethodref (seeded changes
+        // C01-8 and C02-13: whoever keys method references without the kind confuses the two)
+        if method && self.chance(10) {
+            if let Some(prev) = self.prev_method.clone() {
+                if prev.owner.as_bytes().first() != Some(&b'[') {
+                    return MemberRef { is_interface, ..prev };
+                }
+            }
+        }
+        let m = self.member_fresh(method, is_interface);
+        if method {
+            self.prev_method = Some(m.clone());
+        }
+        m
+    }
+    fn member_fresh(&mut self, method: bool, is_interface: bool) -> MemberRef {
         MemberRef {
             // JVMS 4.4.2: only a Methodref may name an array type (e.g. `[I.clone()`); a Fieldref or an
             // InterfaceMethodref owner is a class or interface
@@ -569,7 +588,7 @@ pub fn gen_class(c: &mut dyn Choice, cfg: &GenCfg) -> Sem {
     let lo = cfg.major_min.clamp(45, 67);
     let hi = cfg.major_max.clamp(lo, 67);
     let major = c.range(lo as i64, hi as i64) as u16;
-    let mut g = G { c, cfg, major, this_class: JStr::new() };
+    let mut g = G { c, cfg, major, this_class: JStr::new(), prev_method: None };
     let minor = if major == 45 {
         3
     } else if major >= 56 && g.chance(5) {
